@@ -1,6 +1,12 @@
+#[cfg(not(feature = "cosmian_cover_crypt_verif"))]
 use std::{
     collections::{HashMap, HashSet, LinkedList},
     mem::take,
+};
+#[cfg(feature = "cosmian_cover_crypt_verif")]
+use {
+    crate::verif_model::collections::{HashMap, HashSet},
+    std::{collections::LinkedList, mem::take},
 };
 
 use cosmian_crypto_core::{
@@ -9,6 +15,9 @@ use cosmian_crypto_core::{
     RandomFixedSizeCBytes, Secret, SymmetricKey,
 };
 
+#[cfg(feature = "cosmian_cover_crypt_verif")]
+use crate::verif_model::hash::{Hasher, Kmac, Sha3};
+#[cfg(not(feature = "cosmian_cover_crypt_verif"))]
 use tiny_keccak::{Hasher, Kmac, Sha3};
 use zeroize::Zeroize;
 
